@@ -1,0 +1,119 @@
+//go:build verif
+
+package future
+
+// Contracts for the govc verifier (/verif). This file contains comments only
+// and is compiled only with -tags verif; it adds no declarations.
+//
+// A Future is a monitor (every field access under f.mutex). fclosed[ch] is the
+// ghost "channel ch has been closed": closing a closed channel panics, so the
+// close events carry the precondition !fclosed. Monitor invariant: a future is
+// done exactly when one of its two channels is closed, and never both.
+//
+//@ ghost fclosed map[ref]bool
+//@ guarded_by Future.mutex: Future.result, Future.done, Future.futures
+//@ guarded_by Store.mutex: Store.protected, Store.store
+//@ monitor Future.mutex [done-iff-closed] self.completed != nil && self.cancelled != nil && self.completed != self.cancelled && (self.done <==> (fclosed[self.completed] || fclosed[self.cancelled])) && !(fclosed[self.completed] && fclosed[self.cancelled])
+//@ monitor Store.mutex [map] self.store != nil
+//
+//@ func chan.close:Future.completed(ch int)
+//@   requires [not-closed] !fclosed[ch]
+//@   ensures fclosed[ch]
+//@   modifies fclosed[ch]
+//@ func chan.close:Future.cancelled(ch int)
+//@   requires [not-closed] !fclosed[ch]
+//@   ensures fclosed[ch]
+//@   modifies fclosed[ch]
+//
+//@ global ErrTimeout [nonnil] ErrTimeout != nil
+//@ global ErrCanceled [nonnil] ErrCanceled != nil
+//
+//@ func New() (f *Future)
+//@   ensures [fresh] f != nil && fresh(f) && !f.done && f.completed != nil && f.cancelled != nil && f.completed != f.cancelled && len(f.futures) == 0 && f.result == nil
+//@   ensures [open] !fclosed[f.completed] && !fclosed[f.cancelled]
+//@   ensures [unlocked] held[f.mutex] == 0
+//@   modifies nothing
+//
+// attached_ok(f): the futures attached to f are leaves (nothing attached to
+// them), distinct from f, non-nil, not locked, and share no channel with f
+// (precondition for resolving them while f's mutex is held; Attach is used
+// once per service command, on a fresh future).
+//@ spec pred leaf(g *Future) = len(g.futures) == 0
+//@ spec pred attached_ok(f *Future) = forall i int {f.futures[i]} :: 0 <= i && i < len(f.futures) ==> f.futures[i] != nil && f.futures[i] != f && held[f.futures[i].mutex] == 0 && leaf(f.futures[i]) && f.futures[i].completed != f.completed && f.futures[i].completed != f.cancelled && f.futures[i].cancelled != f.completed && f.futures[i].cancelled != f.cancelled
+//
+//@ func (f *Future) Complete(result interface{}) (ok bool)
+//@   requires [unlocked] held[f.mutex] == 0
+//@   requires [attached] attached_ok(f)
+//@   ensures [resolved] f.done
+//@   ensures [first] ok <==> !old(f.done)
+//@   ensures [result] ok ==> f.result == result && fclosed[f.completed]
+//@   ensures [idempotent] !ok ==> f.result == old(f.result) && fclosed == old(fclosed)
+//@   ensures [released] held == old(held)
+//@   ensures [monotone] forall ch int {fclosed[ch]} :: old(fclosed[ch]) ==> fclosed[ch]
+//@   ensures [leaf-frame] leaf(f) ==> (forall g *Future {g.done} :: g != f ==> (g.done <==> old(g.done)) && g.result == old(g.result)) && (forall ch int {fclosed[ch]} :: ch != f.completed && ch != f.cancelled ==> (fclosed[ch] <==> old(fclosed[ch])))
+//@   modifies any(Future.result), any(Future.done), fclosed, held
+//@   loop 1 invariant [range] 0 <= rangeindex + 1 && rangeindex + 1 <= len(f.futures)
+//@   loop 1 invariant [held] held == old(held)[f.mutex := 2] && f.done && f.result == result && fclosed[f.completed] && !fclosed[f.cancelled] && f.completed != nil && f.cancelled != nil && f.completed != f.cancelled && attached_ok(f) && !old(f.done)
+//@   loop 1 invariant [monotone] forall ch int {fclosed[ch]} :: old(fclosed[ch]) ==> fclosed[ch]
+//@   loop 1 invariant [leaf-frame] leaf(f) ==> (forall g *Future {g.done} :: g != f ==> (g.done <==> old(g.done)) && g.result == old(g.result)) && (forall ch int {fclosed[ch]} :: ch != f.completed && ch != f.cancelled ==> (fclosed[ch] <==> old(fclosed[ch])))
+//
+//@ func (f *Future) Cancel(result interface{}) (ok bool)
+//@   requires [unlocked] held[f.mutex] == 0
+//@   requires [attached] attached_ok(f)
+//@   ensures [resolved] f.done
+//@   ensures [first] ok <==> !old(f.done)
+//@   ensures [result] ok ==> f.result == result && fclosed[f.cancelled]
+//@   ensures [idempotent] !ok ==> f.result == old(f.result) && fclosed == old(fclosed)
+//@   ensures [released] held == old(held)
+//@   ensures [monotone] forall ch int {fclosed[ch]} :: old(fclosed[ch]) ==> fclosed[ch]
+//@   ensures [leaf-frame] leaf(f) ==> (forall g *Future {g.done} :: g != f ==> (g.done <==> old(g.done)) && g.result == old(g.result)) && (forall ch int {fclosed[ch]} :: ch != f.completed && ch != f.cancelled ==> (fclosed[ch] <==> old(fclosed[ch])))
+//@   modifies any(Future.result), any(Future.done), fclosed, held
+//@   loop 1 invariant [range] 0 <= rangeindex + 1 && rangeindex + 1 <= len(f.futures)
+//@   loop 1 invariant [held] held == old(held)[f.mutex := 2] && f.done && f.result == result && fclosed[f.cancelled] && !fclosed[f.completed] && f.completed != nil && f.cancelled != nil && f.completed != f.cancelled && attached_ok(f) && !old(f.done)
+//@   loop 1 invariant [monotone] forall ch int {fclosed[ch]} :: old(fclosed[ch]) ==> fclosed[ch]
+//@   loop 1 invariant [leaf-frame] leaf(f) ==> (forall g *Future {g.done} :: g != f ==> (g.done <==> old(g.done)) && g.result == old(g.result)) && (forall ch int {fclosed[ch]} :: ch != f.completed && ch != f.cancelled ==> (fclosed[ch] <==> old(fclosed[ch])))
+//
+//@ func (f *Future) Result() (r interface{})
+//@   requires [unlocked] held[f.mutex] == 0
+//@   ensures r == f.result && held[f.mutex] == 0
+//@   modifies held[f.mutex]
+//
+//@ func (f *Future) Wait(timeout time.Duration) (err error)
+//@   modifies nothing
+//
+// ---------------------------------------------------------------- Store
+//
+//@ func NewStore() (s *Store)
+//@   ensures s != nil && fresh(s) && !s.protected && s.store != nil && len(s.store) == 0 && held[s.mutex] == 0
+//@   modifies nothing
+//@ func (s *Store) Put(id packet.ID, future *Future)
+//@   requires [unlocked] held[s.mutex] == 0
+//@   ensures [put] has(s.store, id) && s.store[id] == future && held[s.mutex] == 0
+//@   ensures [others] forall k packet.ID {s.store[k]} :: k != id ==> (has(s.store, k) <==> old(has(s.store, k))) && s.store[k] == old(s.store[k])
+//@   modifies elems(s.store), held[s.mutex]
+//@ func (s *Store) Get(id packet.ID) (f *Future)
+//@   requires [unlocked] held[s.mutex] == 0
+//@   ensures [get] (has(s.store, id) ==> f == s.store[id]) && (!has(s.store, id) ==> f == nil) && held[s.mutex] == 0
+//@   modifies held[s.mutex]
+//@ func (s *Store) Delete(id packet.ID)
+//@   requires [unlocked] held[s.mutex] == 0
+//@   ensures [deleted] !has(s.store, id) && held[s.mutex] == 0
+//@   ensures [others] forall k packet.ID {s.store[k]} :: k != id ==> (has(s.store, k) <==> old(has(s.store, k))) && s.store[k] == old(s.store[k])
+//@   modifies elems(s.store), held[s.mutex]
+//@ func (s *Store) Protect(value bool)
+//@   requires [unlocked] held[s.mutex] == 0
+//@   ensures (s.protected <==> value) && held[s.mutex] == 0
+//@   modifies s.protected, held[s.mutex]
+//
+// Clear: unless protected, every stored future is resolved (cancelled if it
+// was still open) and the store is emptied.
+//@ spec pred stored_ok(s *Store) = forall k packet.ID {s.store[k]} :: has(s.store, k) ==> s.store[k] != nil && held[s.store[k].mutex] == 0 && s.store[k].mutex != s.mutex && leaf(s.store[k])
+//@ func (s *Store) Clear()
+//@   requires [unlocked] held[s.mutex] == 0
+//@   requires [stored] stored_ok(s)
+//@   ensures [protected] old(s.protected) ==> s.store == old(s.store)
+//@   ensures [cleared] !old(s.protected) ==> len(s.store) == 0 && fresh(s.store)
+//@   ensures [cancelled] !old(s.protected) ==> forall k packet.ID {old(s.store)[k]} :: old(has(s.store, k)) ==> old(s.store)[k].done
+//@   ensures [released] held[s.mutex] == 0
+//@   modifies s.store, any(Future.result), any(Future.done), fclosed, held
+//@   loop 1 invariant [visited] held[s.mutex] == 2 && !s.protected && s.store == old(s.store) && stored_ok(s) && forall k packet.ID {visited[k]} :: visited[k] ==> s.store[k].done
